@@ -231,7 +231,12 @@ def feed_resp_seq(method, streams):
             out.append((res, ("idle", None, extra)))   # what an errored parse leaves in the buffer is not observed
         else:
             out.append((res, ("stuck" if r.started else "idle", bytes(msg), extra)))
-        r.reinit(method=method)               # Client.transmit on the new connection
+        # Client.service on the new connection: empty receive buffer, new message parser, and the re-request
+        # (transmit -> reinit) when an event stream with a last event id is being followed
+        del msg[:]
+        r.makeParser()
+        if r.evented and r.leid is not None:
+            r.reinit(method=method)
     return out
 
 
@@ -468,6 +473,63 @@ def run_client(frags, close_after, scheme="http", redirectable=True, cycles=None
     finally:
         clienting.tcp.Client, clienting.tcp.ClientTls, clienting.coring.normalizeHost = saved
     return (esc, resps, nev)
+
+
+def run_client_seq(streams, cycles=None):
+    """the real Client over a SEQUENCE of connections: connection k delivers the reads streams[k] and then closes; the
+    connector is reconnectable and virtual time advances one second per service pass, so the client reconnects (and
+    re-requests with Last-Event-ID when it has one).  -> (escaped class or None, [events delivered during connection k],
+    last event id, retry)"""
+    from collections import deque
+    from hio.base import tyming
+    from hio.core import tcp
+    from hio.core.http import clienting
+    ha = ('127.0.0.1', 8080)
+    made = []
+    events = deque()
+    marks = []
+
+    class Conn(tcp.Client):
+        def open(self):
+            self.accepted = False
+            self.connected = False
+            self.cutoff = False
+            k = len(made)
+            fr, cl = (streams[k], True) if k < len(streams) else ([], False)
+            marks.append(len(events))
+            self.cs = FakeSock(fr, cl, self.ha, ('127.0.0.1', 50000 + k))
+            made.append(self.cs)
+            self.opened = True
+            return True
+
+    saved = clienting.coring.normalizeHost
+    clienting.coring.normalizeHost = scripted_resolve
+    esc = None
+    try:
+        tymist = tyming.Tymist(tock=1.0)
+        conn = Conn(ha=ha, tymth=tymist.tymen(), reconnectable=True, tymeout=0.5)
+        cli = clienting.Client(connector=conn, events=events)
+        cli.reopen()
+        cli.request(method="GET", path="/stream")
+        n = cycles if cycles is not None else sum(len(f) + 16 for f in streams) + 8
+        for _ in range(n):
+            if len(made) > len(streams):
+                break
+            for sck in made:
+                sck.tick()
+            try:
+                cli.service()
+            except Exception as ex:   # noqa
+                esc = type(ex).__name__
+                break
+            tymist.tick()
+        marks.append(len(events))
+        evs = [(U8(e['id']), U8(e['name']), U8(e['data'])) for e in events]
+        per = [evs[marks[k]:marks[k + 1]] for k in range(min(len(streams), len(marks) - 1))]
+        leid, retry = U8(cli.respondent.leid), cli.respondent.retry
+    finally:
+        clienting.coring.normalizeHost = saved
+    return (esc, per, leid, retry)
 
 
 # --------------------------------------------------------------------------------------------------------------
@@ -941,7 +1003,8 @@ def run_case(case):
         fr = frags_of(case)
         return (feed_sse(fr), feed_sse([case[1]]))
     if k == "sseq":
-        return (feed_resp_seq("GET", sseq_frags(case)), feed_resp_seq("GET", [[w] for w in sseq_wires(case)]))
+        return (feed_resp_seq("GET", sseq_frags(case)), feed_resp_seq("GET", [[w] for w in sseq_wires(case)]),
+                run_client_seq(sseq_frags(case)))
     if k == "pack":
         d = case_data(case)
         return (d, feed_chunks(split_at(d, case[2])), feed_chunks([d]))
@@ -1017,6 +1080,8 @@ def view_of(case, obs):
         return (multi[0],)
     if k in ("cli", "clir"):
         return (obs[0][0],)
+    if k == "sseq":
+        return obs[:2]          # the Respondent-level runs; the Client-level run is for the oracle
     return obs
 
 
